@@ -870,6 +870,18 @@ func (c *Canonicalizer) writeFunctionSignature(fn *ssa.Function) {
 		c.output.WriteString(fmt.Sprintf("%s: %s", c.registerMap[p], sanitizeType(p.Type())))
 	}
 	c.output.WriteString(")")
+	// Captured variables are inputs of a function literal too: no instruction that uses one
+	// prints its type, so two literals capturing a *int8 and a *int16 would render alike.
+	if len(fn.FreeVars) > 0 {
+		c.output.WriteString(" [")
+		for i, fv := range fn.FreeVars {
+			if i > 0 {
+				c.output.WriteString(", ")
+			}
+			c.output.WriteString(fmt.Sprintf("%s: %s", c.registerMap[fv], sanitizeType(fv.Type())))
+		}
+		c.output.WriteString("]")
+	}
 	sig := fn.Signature
 	if sig.Results().Len() > 0 {
 		c.output.WriteString(" -> (")
